@@ -533,7 +533,9 @@ def automorphism_sessions(rng, tier):
         to = [pos[src.nodes[a][record.TAG]] for a in range(src.number_of_nodes())]
         inv = {v: k for k, v in enumerate(to)}
         for f in auts:
-            S.aut(c, [to[f[inv[x]]] for x in range(len(to))])
+            perm = [to[f[inv[x]]] for x in range(len(to))]
+            if record._check_iso(K, K, perm):          # only symmetries the driver itself can confirm are claimed
+                S.aut(c, perm)
         S.ser(c)
         ss.append(S)
     sizes = (5, 6, 9, 12) if tier == "quick" else (5, 6, 7, 9, 12, 16, 24, 30)
